@@ -112,7 +112,7 @@ wait:
 		case err == nil:
 			core.Count("early:answered-without-the-origin")
 			break wait
-		case !isTimeout(err):
+		case !timeoutErr(err): // polling, not a verdict
 			core.Count("early:connection-gone")
 			return err
 		case time.Now().After(deadline):
